@@ -1111,7 +1111,7 @@ func TestRegression_FileReaderFieldIndexesRebuiltWhileOtherContainersRead(t *tes
 		{Kind: "write", Rows: []rowSpec{row(0, f11+525_000, v("f0sum", -2), v("f1sum", -385.75)), row(1, f11, v("f1sum", 0.125))}},
 	}
 	q := mQuery{Metric: "m0", Items: []selectItem{{Field: "f0sum", Fn: "max"}}, Start: f10, End: f11 + hourMs - 1000}
-	for i := 0; i < 2000; i++ {
+	for i := 0; i < 1000; i++ {
 		ops = append(ops, opSpec{Kind: "query", Query: &q, SQL: q.sql()})
 	}
 	runHistory(t, sc, ops)
